@@ -175,7 +175,9 @@ class TaskManager:
             assert isinstance(user_task, (Task, Future))
 
             def done_cb(future: Future) -> None:
-                self._pending_tasks.pop(name, None)
+                # The name may have been re-registered since this task was cancelled: only forget our own entry.
+                if self._pending_tasks.get(name, None) is future:
+                    self._pending_tasks.pop(name, None)
                 try:
                     future.result()
                 except CancelledError:
